@@ -1,2 +1,124 @@
-/- C13 property theorems (under construction) -/
-import Decaf.Model.Exec
+/-
+C13 — R1CS gadgets compute what the native code computes, and are complete.
+
+With the honest hint (`none` = what `Fq::sqrt_ratio_zeta(&ONE, &den)` returns out of circuit):
+* `isqrt_complete`: the isqrt constraints are satisfied for every input, and the gadget's (flag, y) IS the native result;
+* `decompress_complete_iff`: the decode gadget is satisfied exactly when native decoding succeeds, and its output
+  coordinates are the native ones;
+* `lazy_*`: forcing the encoding / the element of a lazily evaluated variable, in any order and any number of times,
+  emits at most one gadget and never changes a value once it is defined.
+These are stated under `SRContract sqrtRatioArk` (the table-driven routine meets its contract, C09).
+-/
+import Decaf.Props.C14
+
+namespace C13
+open Model Edwards Decaf
+
+/-- honest synthesis of isqrt is always satisfied and returns the native pair -/
+theorem isqrt_complete (h : SRContract sqrtRatioArk) {x : ℕ} (hx : x < q) :
+    ∃ f y, sqrtRatioArk 1 x = some (f, y) ∧ R1cs.isqrt x none = (true, f, y) := by
+  obtain ⟨f, y, hs, hy⟩ := h.total 1 x one_lt_q hx
+  refine ⟨f, y, hs, ?_⟩
+  have hone : (1 : ℕ) ≠ 0 := one_ne_zero
+  unfold R1cs.isqrt R1cs.honest
+  simp only [Option.getD_none, hs, Option.getD_some]
+  by_cases hx0 : x = 0
+  · subst hx0
+    obtain ⟨rfl, rfl⟩ := h.den_zero 1 f y one_lt_q hone hs
+    decide +kernel
+  · have hz : (x == 0) = false := by simpa using hx0
+    have hxq : (x : Fq) ≠ 0 := by rwa [Ne, cast_eq_zero_iff hx]
+    simp only [hz, Bool.false_eq_true, if_false]
+    by_cases hsq : IsSquare (((1 : ℕ) : Fq) / (x : Fq))
+    · obtain ⟨rfl, hv⟩ := h.square 1 x f y one_lt_q hx hone hx0 hs hsq
+      have : fsq q y = finv q x := by
+        apply eq_of_cast_eq (fsq_lt q_pos _) (finv_lt one_lt_q _)
+        rw [cast_fsq, cast_finv q_gt_two, ← sq]
+        rw [Nat.cast_one] at hv
+        exact eq_inv_of_mul_eq_one_left hv
+      simp [this]
+    · obtain ⟨rfl, hv⟩ := h.nonsquare 1 x f y one_lt_q hx hone hx0 hs hsq
+      have : fsq q y = fmul q ZETA (finv q x) := by
+        apply eq_of_cast_eq (fsq_lt q_pos _) (fmul_lt q_pos _ _)
+        rw [cast_fsq, cast_fmul, cast_finv q_gt_two, ← sq]
+        rw [Nat.cast_one, mul_one] at hv
+        rw [← hv, mul_assoc, mul_inv_cancel₀ hxq, mul_one]
+      simp [this]
+
+/-- honest synthesis of the decode gadget: satisfied iff native decoding succeeds, same coordinates -/
+theorem decompress_complete_iff (h : SRContract sqrtRatioArk) {s : ℕ} (hs : s < q) :
+    ((R1cs.decompress s none).1 = true ↔ ∃ c, decodeField sqrtRatioArk s = .ok c) ∧
+    (∀ c, decodeField sqrtRatioArk s = .ok c → (R1cs.decompress s none).2 = (c.X, c.Y)) := by
+  unfold R1cs.decompress decodeField
+  simp only []
+  set den := fmul q (fsub q (fsq q (fsub q 1 (fsq q s))) (fmul q (fmul q 4 cD) (fsq q s))) (fsq q (fsub q 1 (fsq q s))) with hden
+  obtain ⟨f, v, hsr, hiq⟩ := isqrt_complete h (x := den) (fmul_lt q_pos _ _)
+  rw [hiq, hsr]
+  by_cases hn : isNeg s = true
+  · simp [hn]
+  · have hn' : isNeg s = false := by simpa using hn
+    cases f with
+    | false => simp [hn']
+    | true => simp [hn']
+
+/-! ### the lazily evaluated variable -/
+
+/-- run a sequence of forcings (with one hint per emitted gadget) -/
+def run : List R1cs.Force → R1cs.Lazy → List R1cs.Hint → R1cs.Lazy × List R1cs.Emitted
+  | [], st, _ => (st, [])
+  | f :: fs, st, hs =>
+    let r := st.step f (hs.headD none)
+    let hs' := if r.2.1 = .nothing then hs else hs.drop 1
+    let rest := run fs r.1 hs'
+    (rest.1, r.2.1 :: rest.2)
+
+theorem step_both (s x y : ℕ) (f : R1cs.Force) (h : R1cs.Hint) :
+    (R1cs.Lazy.both s x y).step f h = (.both s x y, .nothing, true) := by
+  cases f <;> rfl
+
+/-- a value, once defined, is never changed by a later forcing -/
+theorem step_preserves_values (st : R1cs.Lazy) (f : R1cs.Force) (h : R1cs.Hint) :
+    (∀ s, st.encVal = some s → (st.step f h).1.encVal = some s) ∧
+    (∀ p, st.elemVal = some p → (st.step f h).1.elemVal = some p) := by
+  cases st <;> cases f <;> simp [R1cs.Lazy.step, R1cs.Lazy.encVal, R1cs.Lazy.elemVal]
+
+/-- a step emits a gadget only when it moves to the `both` state -/
+theorem step_emits_then_both (st : R1cs.Lazy) (f : R1cs.Force) (h : R1cs.Hint) :
+    (st.step f h).2.1 ≠ .nothing → ∃ s x y, (st.step f h).1 = .both s x y := by
+  cases st <;> cases f <;> simp [R1cs.Lazy.step]
+
+/-- from the `both` state nothing is ever emitted again -/
+theorem run_both (fs : List R1cs.Force) (s x y : ℕ) (hs : List R1cs.Hint) :
+    (run fs (.both s x y) hs).1 = .both s x y ∧ ∀ e ∈ (run fs (.both s x y) hs).2, e = .nothing := by
+  induction fs generalizing hs with
+  | nil => simp [run]
+  | cons f fs ih =>
+    simp only [run, step_both]
+    have := ih hs
+    simp only [if_true]
+    exact ⟨this.1, by intro e he; rcases List.mem_cons.mp he with rfl | he; rfl; exact this.2 e he⟩
+
+/-- **at most one gadget is ever synthesised**, for every order and number of forcings -/
+theorem lazy_emits_at_most_once (fs : List R1cs.Force) (st : R1cs.Lazy) (hs : List R1cs.Hint) :
+    ((run fs st hs).2.filter (· ≠ .nothing)).length ≤ 1 := by
+  induction fs generalizing st hs with
+  | nil => simp [run]
+  | cons f fs ih =>
+    simp only [run]
+    by_cases he : (st.step f (hs.headD none)).2.1 = .nothing
+    · simp only [he, if_true, List.filter_cons, ne_eq, not_true_eq_false, decide_false, Bool.false_eq_true, if_false]
+      exact ih _ _
+    · obtain ⟨s, x, y, hb⟩ := step_emits_then_both st f (hs.headD none) he
+      simp only [he, if_false, List.filter_cons, ne_eq, not_false_eq_true, decide_true, if_true, List.length_cons]
+      rw [hb]
+      have := (run_both fs s x y (hs.drop 1)).2
+      have hnil : ((run fs (.both s x y) (hs.drop 1)).2.filter (· ≠ .nothing)) = [] := by
+        rw [List.filter_eq_nil_iff]
+        intro e he; simp [this e he]
+      rw [hnil]; simp
+
+/-- non-vacuity: the sequence enc, elem, enc, elem, elem from an encoding emits exactly one decode -/
+example : (run [.enc, .elem, .enc, .elem, .elem] (.enc 8) []).2 = [.nothing, .decompress, .nothing, .nothing, .nothing] := by
+  decide +kernel
+
+end C13
